@@ -151,6 +151,18 @@ Example C14_parse_semicolon_nonvacuous :
                         (ANone i0))) BNil) = true.
 Proof. vm_compute. repeat split. Qed.
 
+(** command lines are now accepted exactly as pest accepts them (cmd_ok2 = one line, no white space at
+    either end, not starts_kw): a line may start with a keyword WORD -- only `if ` / `for ` / `else if ` /
+    `while ` (keyword + blank) and the bare words `else` / `fi` / `done` are refused. *)
+Definition wit_kw : block :=
+  BCons (SCmd i0 (S2 "fix"))
+ (BCons (SCmd i2 (S2 "elsewhere x"))
+ (BCons (SWhile i0 true (S2 "iffy") (BCons (SCmd it (S2 "done7")) (BCons (SCmd it (S2 "else x")) (BCons (SCmd i2 (S2 "fi  x")) BNil))))
+ (BCons (SCmd i0 (S2 "format c:")) BNil))).
+Example C14_parse_kwprefix_nonvacuous :
+  fragI_block wit_kw = true /\ wfp_block wit_kw = true /\ parse_ok wit_kw.
+Proof. split; [vm_compute; reflexivity|]. split; [vm_compute; reflexivity|]. prove_parse_ok. Qed.
+
 (** the round-3 fragment is the special case without indentation and blank lines *)
 Theorem C14_parse_indented_extends : forall b, frag_block b = true -> fragI_block b = true.
 Proof. exact (proj1 frag_sub). Qed.
